@@ -445,6 +445,8 @@ def shape_rule(ck, facts, accept=None, only_keys=None):
             ok = bool(oks)
             why = "no Ok path"
             needed = set()
+            oks = [(paths.atoms(c), v) for c, v in oks]          # conjunctions/disjunctions split into literals (with unit propagation)
+            errs = [(paths.atoms(c), v) for c, v in errs]
             for c, v in oks:
                 x = v.tag[2]
                 for cond in leaf_invariants(x):
